@@ -42,12 +42,12 @@ Proof.
   safe_start k__jitcontinuous_perievent ann__jitcontinuous_perievent.
   rewrite find_rwc. wp_compute k__jitcontinuous_perievent ann__jitcontinuous_perievent.
   lazy beta iota delta [post_rwc].
-  vc k__jitcontinuous_perievent ann__jitcontinuous_perievent.
+  Time vc k__jitcontinuous_perievent ann__jitcontinuous_perievent.
   1,4: do 6 eexists; split; [reflexivity | assumption].
   1,3: intros fu vs Hp; exact (k_jitrestrict_with_count_spec fu vs Hp).
   1,2: assumption.
-  all: try solve [autorewrite with zlen; assumption].
-  all: change (Z.max 0 2) with 2 in *; rewrite ?(Z.max_r 0 (zlen s)) in * by lia.
+  Time all: try solve [autorewrite with zlen; assumption].
+  Time all: change (Z.max 0 2) with 2 in *; rewrite ?(Z.max_r 0 (zlen s)) in * by lia.
   (* the two columns of [count] are the count arrays returned by the two calls *)
   1: { rewrite column_set_col_same by (try lia; rewrite zlen_coerce_cells; assumption).
        rewrite coerce_cells_nonneg by (destruct H15; assumption).
@@ -56,10 +56,10 @@ Proof.
        rewrite column_set_col_same by (try lia; rewrite zlen_coerce_cells; assumption).
        rewrite coerce_cells_nonneg by (destruct H10; assumption).
        autorewrite with zlen. assumption. }
-  all: repeat match goal with
+  Time all: repeat match goal with
          | Hx : context [nthZ ?d (?k * 2 + ?j)] |- _ =>
              rewrite <- (nthZ_column (zlen s) 2 d j k) in Hx by lia
          | |- context [nthZ ?d (?k * 2 + ?j)] => rewrite <- (nthZ_column (zlen s) 2 d j k) by lia
          end.
-  all: arr_arith.
-Qed.
+  Time all: arr_arith.
+Time Qed.
